@@ -78,32 +78,47 @@ def plan(ctx):
     q = ctx.tier == "quick"
     T = "Q" if q else "T"
     jobs = [
-        dict(module="FileSpec", cfg="GenFileSpecNames%s.cfg" % T, kind="file", tag="N", workers=4,
-             label="File: every name of <= 4 '.'-separated tokens over %d tokens (keywords, unknown, empty, URL stems), no format string: "
-                   "I => A on the domain, termination, export" % (12 if q else 24)),
-        dict(module="FileSpec", cfg="GenFileSpecFmt%s.cfg" % T, kind="file", tag="F", workers=3,
+        # ---- osmium::io::File: exhaustive design checks (no export), then the export configurations (same invariants)
+        dict(module="FileSpec", cfg="MCFileSpecFmt%s.cfg" % T, workers=3,
              label="File: format part = every sequence of <= 3 tokens over %d tokens x <= 1 option x 6 name classes x both constructors" % (7 if q else 16)),
-        dict(module="FileSpec", cfg="GenFileSpecOpts%s.cfg" % T, kind="file", tag="O", workers=3,
-             label="File: 7 heads x every sequence of <= 3 option parts over %d parts (history, add_metadata spellings, overrides, empty)" % (12 if q else 24)),
-        dict(module="FileSpec", cfg="GenFileSpecSet%s.cfg" % T, kind="file", tag="S", workers=2, cov=FILE_ACTIONS,
+        dict(module="FileSpec", cfg="MCFileSpecOpts%s.cfg" % T, workers=3,
+             label="File: 7 heads x every sequence of <= 3 option parts over %d parts (history, add_metadata spellings, overrides, empty part)" % (8 if q else 24)),
+        dict(module="FileSpec", cfg="MCFileSpecSet%s.cfg" % T, workers=2, cov=FILE_ACTIONS,
              label="File: constructor then <= %d setter calls over 16 setters, then check()" % (2 if q else 3)),
         dict(module="FileSpec", cfg="MCFileSpecDeviation.cfg", fail="NoDeviation", workers=2,
              label="File vacuity: with the whole name space the implementation-shaped layer must differ from the documented scheme somewhere (N1-N3)"),
+        dict(module="FileSpec", cfg="GenFileSpecNames%s.cfg" % T, kind="file", tag="N", workers=3,
+             label="File: every name of <= 4 '.'-separated tokens over %d tokens (keywords, unknown, empty, URL stems), no format string: "
+                   "I => A on the domain, check() verdict, termination; exported" % (12 if q else 15)),
+        dict(module="FileSpec", cfg="GenFileSpecFmt%s.cfg" % T, kind="file", tag="F", workers=2,
+             label="File export: every format part of <= 3 tokens over 7 tokens x %s" % ("0/1 option x 3 name classes x both constructors" if q else "<= 1 option of 5 x 6 name classes x both constructors")),
+        dict(module="FileSpec", cfg="GenFileSpecOpts%s.cfg" % T, kind="file", tag="O", workers=2,
+             label="File export: 7 heads x every sequence of <= %d option parts over 12 parts" % (2 if q else 3)),
+        dict(module="FileSpec", cfg="GenFileSpecSet%s.cfg" % T, kind="file", tag="S", workers=2,
+             label="File export: constructor, <= %d setter calls, check()" % (1 if q else 2)),
+        # ---- osmium::metadata_options
         dict(module="FileSpecMd", cfg="MCFileSpecMd.cfg", workers=3, cov=MD_ACTIONS,
              label="metadata_options: 834 attribute strings x <= 2 operations (set_x, &=, |= with all 32 sets, reparse): mask = set, text law"),
-        dict(module="FileSpecMd", cfg="GenFileSpecMdParse.cfg", kind="md", tag="MP", workers=2,
-             label="metadata_options export: every attribute string + one operation"),
-        dict(module="FileSpecMd", cfg="GenFileSpecMdOps%s.cfg" % ("" if q else "T"), kind="md", tag="MO", workers=3,
-             label="metadata_options export: 8 starting points x every sequence of <= %d operations" % (2 if q else 3)),
-        dict(module="FileSpecHeader", cfg="MCFileSpecHeader.cfg", workers=3, cov=HDR_ACTIONS,
-             label="Header: all histories of <= 4 calls: option map, joined_boxes = bounding box of the valid corners"),
-        dict(module="FileSpecHeader", cfg="GenFileSpecHeader%s.cfg" % T, kind="header", tag="H", workers=3,
+        dict(module="FileSpecMd", cfg="GenFileSpecMd%s.cfg" % T, kind="md", tag="M", workers=2,
+             label="metadata_options export: every attribute string; %s" % ("8 starting points x every sequence of <= 2 operations" if q else "5 starting points x every sequence of <= 3 operations")),
+        # ---- osmium::io::Header
+        dict(module="FileSpecHeader", cfg="MCFileSpecHeader%s.cfg" % T, workers=3, cov=HDR_ACTIONS,
+             label="Header: all histories of <= %d calls:" % (3 if q else 4) + " option map, joined_boxes = bounding box of the valid corners"),
+        dict(module="FileSpecHeader", cfg="GenFileSpecHeader%s.cfg" % T, kind="header", tag="H", workers=2,
              label="Header export: all histories of <= %d calls" % (2 if q else 3)),
-        dict(module="FileSpecCrc", cfg="MCFileSpecCrc.cfg", workers=2, cov=CRC_ACTIONS,
-             label="CRC: feed = AFeed(content) for every layout x 7 physical variants of 99 contents; feed injective up to K1-K4; 48 round-trip option vectors"),
-        dict(module="FileSpecCrc", cfg="GenFileSpecCrc%s.cfg" % T, kind="crc", tag="C", workers=2,
-             label="CRC export: layouts x physical variants, round trips over %d option vectors" % (21 if q else 48)),
+        # ---- osmium::CRC
+        dict(module="FileSpecCrc", cfg="GenFileSpecCrc%s.cfg" % T, kind="crc", tag="C", workers=2, cov=CRC_ACTIONS,
+             label="CRC: feed = AFeed(content) for every layout x 7 physical variants of 99 contents, feed injective up to K1-K4, round trips "
+                   "over %d option vectors (checked and exported)" % (21 if q else 48)),
     ]
+    if not q:
+        jobs.insert(0, dict(module="FileSpec", cfg="MCFileSpecNamesT.cfg", workers=4,
+                            label="File: every name of <= 4 '.'-separated tokens over 24 tokens (keywords, unknown, empty, URL stems, '-'), no format "
+                                  "string: I => A on the domain, check() verdict, termination"))
+        jobs.append(dict(module="FileSpecCrc", cfg="MCFileSpecCrc.cfg", workers=2, label="CRC: the same without history variable, 48 round-trip option vectors"))
+    else:
+        for j in jobs:
+            j["workers"] = 2
     return jobs
 
 
@@ -239,7 +254,7 @@ def run_tlc(ctx, dirpath, binary_thunk):
             return r
         return go
 
-    res = vlib.parallel(binary_thunk, *[thunk(j) for j in jobs], max_workers=(3 if capped else 5))
+    res = vlib.parallel(binary_thunk, *[thunk(j) for j in jobs], max_workers=(3 if capped else 6))
     binary = res[0]
     for j, r in zip(jobs, res[1:]):
         if j.get("fail"):
